@@ -232,8 +232,11 @@ impl FileLoader {
         // Ideally we would fill the buffer in one call via [`Read::read_buf`].
         // Since that API is not stabilized yet, we fill in small chunks, which
         // requires extra copying.
+        //
+        // `vec_len` comes from the model file and may be far larger than the
+        // data file, so only reserve space for data that has been read.
         let mut remaining = vec_len;
-        let mut buf = Vec::with_capacity(remaining);
+        let mut buf = Vec::with_capacity(remaining.min(TMP_SIZE));
 
         // Buffer size chosen to match BufReader's default.
         const TMP_SIZE: usize = 8192;
